@@ -15,6 +15,7 @@ TRUSTED = [
     'hand-written LTS coq/Model/Panel.v with ghost ledgers (counted / charged / reported-for-deleted / admin changes); valve and queue counters are unbounded integers (int64 wrap is modelled only where UploadStatus subtracts: a counter would need 2^63 bytes to wrap); Nullify is one step, the updateUsageQueue loop is one step, commitUpdate reads the queue when it leaves its critical section (generated obligation C16_queue_guarded_by_queueM)',
     'correspondence: lock-step engine harness/server/c17_common_test.go + c16_test.go: real userPanel, real LimitedValves, real localManager on bolt, admin changes through the real API router; bytes are injected through the real switchboard (deplex -> AddRx, Stream.Write -> send -> AddTx) on in-memory connections that count what they carry (the wire tap the oracle uses); compared step by step (queue contents, stored credits, session states) with the extracted model (ocaml/c16_driver.ml); one run of the real regularQueueUpload loop on a 25 ms interval',
     'bolt transactions are atomic; Go sync/atomic has sequentially consistent semantics',
+    'overlapped calls: the engine hands the real panel a wrapper around the real localManager (userPanel.Manager is an interface) that holds a commitUpdate goroutine inside Manager.UploadStatus (and dispatches inside AuthenticateUser / AuthoriseNewSession) until the scenario releases it; the model thread is stopped at M8 (coq/Model/PanelPark.v); the strict accounting oracle for these families assumes what their generator guarantees (ample credit, no expiry, terminations only by closing a last session); Model/PanelSplit.v + Proofs/PanelSplit.v: commitUpdate with the place of the queue reset as a parameter',
 ]
 ASSUMPTIONS = ['traffic byte counts are non-negative and notice frames have non-negative size (C16_at_most_once, C16_per_user)',
                '"exactly once" is claimed for users that stay active; bytes counted on a record after its final Nullify are lost at termination (stated in C16_conservation as the valve residue of records activeUsers no longer holds); orphan records are C17\'s finding F5']
